@@ -326,6 +326,56 @@ Theorem Chain_broadband :
 Proof. exact broadband_of_pupil. Qed.
 Print Assumptions Chain_broadband.
 
+(* 6. Per-segment tilts (C03 o C04 o C07 o C02).  A segmented Pupil (cube of K pairwise disjoint masks) whose .tilt holds
+   one Tilt(x=a_k, y=b_k) per segment - what Plane.fit_tilt leaves behind; Plane.multiply hands segment k the entries
+   tilt[k::K], i.e. its own - propagated with Field.shift ([chain_propagate_tilted]), against the same Pupil with every
+   segment's ramp a_k X dx_r - b_k Y dx_c written into the OPD on that segment's mask and no metadata.  Both calls
+   succeed and both rendered fields are built from the same per-segment terms X_k = the transform of segment k's pupil
+   function at the sample's coordinate minus segment k's shift (z a_k os/du_r, - z b_k os/du_c):
+       metadata:  sum_k [window centred at fix(shift_k)] X_k        OPD ramps:  [window centred at 0] sum_k X_k
+   - equal wherever all windows agree; the metadata form evaluates each segment in its own translated window. *)
+Theorem Chain_segmented_tilt :
+  forall (S : Scalar), is_ring S -> kernel_laws S -> forall (sq : Qc -> S)
+    (P : plane S) (ms : list (garr bool)) (abs : list (Qc * Qc)) (lam : Qc) (pix : pixraw) (foc : option Qc) (z dur duc : Qc)
+    (shape pshape : option (Z * Z)) (os : Z) (dxr dxc : Qc) (n m Sr Sc Pr Pc : Z),
+  plane_ok P n m -> pl_mask P = PM3 n m ms -> disjoint_masks ms ->
+  pl_tilt P = map (fun ab => TiltAng (snd ab) (fst ab)) abs -> length abs = length ms -> 0 < n -> 0 < m ->
+  mul_pixelscale (pl_pix P) (pix_broadcast pix) = Ok (Some (dxr, dxc)) -> pl_focal P = Some (FVal z) ->
+  dur <> 0%Qc -> duc <> 0%Qc -> lam <> 0%Qc -> z <> 0%Qc ->
+  match shape with None => (n, m) | Some s => s end = (Sr, Sc) ->
+  match pshape with None => (Sr, Sc) | Some p => p end = (Pr, Pc) ->
+  0 < Sr -> 0 < Sc -> 0 < Pr -> 0 < Pc -> 1 <= os ->
+  let w0 := pwf_init (S := S) lam pix foc [] in
+  let L := combine ms abs in
+  let Pramp := mkPlane (pl_amp P)
+     (OpdA (mkP n m (fun x y => (opd_at (pl_opd P) x y +
+        fold_right (fun gab acc =>
+          ((if mask_at (fst gab) x y
+            then fst (snd gab) * (zq (x - n / 2) * dxr) - snd (snd gab) * (zq (y - m / 2) * dxc) else 0) + acc)%Qc) 0%Qc L)%Qc)))
+     (pl_mask P) (pl_slices P) (pl_pix P) [] (pl_focal P) in
+  let ar := ((dxr * dur) / (lam * z * zq os))%Qc in
+  let ac := ((dxc * duc) / (lam * z * zq os))%Qc in
+  let shr := fun gab : garr bool * (Qc * Qc) => (z * fst (snd gab) * zq os / dur)%Qc in
+  let shc := fun gab : garr bool * (Qc * Qc) => (- (z * snd (snd gab) * zq os / duc))%Qc in
+  let X := fun (gab : garr bool * (Qc * Qc)) (i j : Z) =>
+    (sumZ n (fun x => sumZ m (fun y =>
+       (amp_at (pl_amp P) x y * kofb (pget (fst gab) x y) * ke (- (opd_at (pl_opd P) x y / lam))%Qc
+        * ke (ar * zq (x - n / 2) * (zq (i - (Sr * os) / 2) - shr gab)
+              + ac * zq (y - m / 2) * (zq (j - (Sc * os) / 2) - shc gab))%Qc)%K))
+     * sq (qabs (ar * ac)%Qc))%K in
+  exists vA oA vB oB,
+    chain_propagate_tilted sq [P] w0 dur duc shape pshape os = Ok vA /\ wfield vA = Ok oA /\
+    chain_propagate sq [Pramp] w0 dur duc shape pshape os = Ok vB /\ wfield vB = Ok oB /\
+    nr oA = Sr * os /\ nc oA = Sc * os /\ nr oB = Sr * os /\ nc oB = Sc * os /\
+    forall i j, 0 <= i < Sr * os -> 0 <= j < Sc * os ->
+      let u := i - (Sr * os) / 2 in let v := j - (Sc * os) / 2 in
+      get oA i j = fold_right (fun gab acc =>
+         ((if inE (array_extent (Pr * os) (Pc * os) (qfix (shr gab)) (qfix (shc gab))) u v then X gab i j else k0) + acc)%K) k0 L /\
+      get oB i j = (if inE (array_extent (Pr * os) (Pc * os) 0 0) u v
+                    then fold_right (fun gab acc => (X gab i j + acc)%K) k0 L else k0).
+Proof. exact segmented_tilt_equals_ramps. Qed.
+Print Assumptions Chain_segmented_tilt.
+
 (* non-vacuity: the integers with kernel 1 satisfy the hypotheses on the scalars; a 3 x 4 pupil over Z (array amplitude
    1 + i + 2 j, scalar OPD, a mask that blocks sample (0, 3), pixel scale 1/2, focal length 4) built by the
    constructor satisfies the hypotheses of Chain_image_of_pupil / Chain_tilt_plane_equals_opd_ramp; the chain runs with
@@ -402,3 +452,37 @@ Example Chain_broadband_nonvacuous :
       | Err _ => False end
   | Err _ => False end.
 Proof. vm_compute. repeat split; reflexivity. Qed.
+
+(* per-segment tilts on a 3 x 4 pupil over Z split into the left and the right two columns; the left segment carries
+   Tilt(x = 1/32, y = 0): shift z a os/du = 4 * (1/32) * 2 / (1/4) = 1 output row, the right one no tilt.  The
+   hypotheses of Chain_segmented_tilt hold; with kernel 1 the left segment contributes 18 = sum of its amplitudes inside
+   its window moved down by one row, the right one 42 inside the centred window *)
+Definition exSegL : arr ZS := @mkArr ZS 3 4 (fun i j => if j <? 2 then 1 else 0).
+Definition exSegR : arr ZS := @mkArr ZS 3 4 (fun i j => if j <? 2 then 0 else 1).
+Definition exSegPupil : result (plane ZS) :=
+  plane_init (S := ZS) exNz (AmpA exAmp) (OpdS 0%Qc) (M3 3 4 [exSegL; exSegR]) (Pix1 (Q2Qc (1 # 2))) (Some (FVal (Q2Qc 4)))
+             [TiltAng 0%Qc (Q2Qc (1 # 32)); TiltAng 0%Qc 0%Qc].
+Example Chain_segmented_tilt_nonvacuous :
+  disjoint_masks [binarise exNz exSegL; binarise exNz exSegR] /\
+  match exSegPupil with
+  | Ok P =>
+      plane_ok P 3 4 /\ pl_mask P = PM3 3 4 [binarise exNz exSegL; binarise exNz exSegR] /\
+      pl_tilt P = map (fun ab => TiltAng (snd ab) (fst ab)) [(Q2Qc (1 # 32), 0%Qc); (0%Qc, 0%Qc)] /\
+      match chain_propagate_tilted (S := ZS) (fun _ => 1) [P] (pwf_init (S := ZS) 1%Qc PixNone None [])
+                                   (Q2Qc (1 # 4)) (Q2Qc (1 # 4)) (Some (2, 3)) (Some (1, 2)) 2 with
+      | Ok v => match wfield v with
+                | Ok o => get o 1 2 = 42 /\ get o 2 2 = 18 + 42 /\ get o 3 2 = 18 /\ get o 0 2 = 0
+                | Err _ => False end
+      | Err _ => False end
+  | Err _ => False end.
+Proof.
+  split.
+  { constructor; [|constructor; [constructor|constructor]]. constructor; [|constructor].
+    intros i j. unfold mask_at, binarise, exSegL, exSegR, exNz. cbn [pnr pnc pget get nr nc].
+    destruct (inr 3 i); [|reflexivity]. destruct (inr 4 j); [|reflexivity]. cbn [andb]. destruct (j <? 2); reflexivity. }
+  vm_compute. split.
+  { constructor; try reflexivity.
+    - intros a [<-|[<-|[]]]; split; reflexivity.
+    - repeat split. }
+  repeat split; reflexivity.
+Qed.
